@@ -866,8 +866,27 @@ func (c *Ctx) ThresholdRules(prop string) {
 					c.R.Fail(rule4, Fn(fn), c.Pos(ret), "an account can be created successfully without being added to the in-memory account cache: it would be unusable for signing and listing until restart", "fetcher.AddAccount(wallet, account) on every success path", an.PathString(c.Pos, path))
 				}
 			}
+			// once the account exists in the store it reaches the cache whatever the function then reports: an error return
+			// after a successful creation (a cancelled request, a later step failing) must also have passed AddAccount
+			for _, ret := range an.Returns(fn) {
+				if k < 0 || isNilConst(unwrapErr(an.Result(ret, k))) || !an.Reachable(an.After(ci), ret) {
+					continue
+				}
+				target := ssa.Instruction(ret)
+				if x, path := an.Cut(an.CutQuery{From: an.After(ci), Target: func(i ssa.Instruction) bool { return i == target }, AcceptInstr: isAdd,
+					AcceptEdge: func(b *ssa.BasicBlock, i int, a *an.Atom) bool {
+						// the creation itself failed: nothing was created
+						if a == nil || a.Op != "!=" {
+							return false
+						}
+						return (errs[a.LV] && isNilConst(a.RV)) || (errs[a.RV] && isNilConst(a.LV))
+					}}); x != nil {
+					bad = true
+					c.R.Fail(rule4, Fn(fn)+":error-path", c.Pos(ret), "the function can give up after the account was created in the store but before it was added to the in-memory account cache: the account exists, cannot be created again, and is missing from listings and unusable until restart", "after a successful creation every path passes fetcher.AddAccount", an.PathString(c.Pos, path))
+				}
+			}
 			if !bad {
-				c.R.OK(rule4, Fn(fn), c.Pos(ci), "every success path after the creation passes fetcher.AddAccount(wallet, created account)")
+				c.R.OK(rule4, Fn(fn), c.Pos(ci), "every path after a successful creation passes fetcher.AddAccount(wallet, created account)")
 			}
 		}
 	}
